@@ -288,7 +288,7 @@ def c10(tier='quick', seed=0):
     rng = random.Random(seed)
     R = Result('long-lived enforcer equals a fresh one', 'operation sequences over {write, write-old-name, empty, touch, delete, '
                'load, enforce} x {main file, two files in d1, one in d2}: exhaustive for short sequences over the main file '
-               'and one directory file, random up to 14 steps; plain and deprecated defaults; with and without a main file '
+               'and one directory file and over two files of one directory, random up to 14 steps; plain and deprecated defaults; with and without a main file '
                'at the start; modification times strictly increase on files and directories')
     ops = [(k, f) for k in ('write', 'empty', 'touch', 'delete') for f in FILES] + [('write_old', 'd1/x.yaml'), ('load', None), ('enforce', None)]
     short_ops = [(k, f) for k in ('write', 'empty', 'delete') for f in ('policy.yaml', 'd1/x.yaml')] + [('load', None)]
@@ -296,12 +296,24 @@ def c10(tier='quick', seed=0):
     L = 3 if tier == 'quick' else 4
     for n in range(1, L + 1):
         seqs += [list(s) for s in itertools.product(short_ops, repeat=n)]
-    for _ in range(120 if tier == 'quick' else 1500):
+    # second exhaustive family: two files of ONE directory written and deleted (a deletion changes only the
+    # directory's own modification time, a rewrite only the file's)
+    d1files = [f for f in FILES if f.startswith('d1/')][:2]
+    short_ops2 = [(k, f) for k in ('write', 'delete') for f in d1files] + [('load', None)]
+    nfam2 = 0
+    for n in range(2, L + 2):
+        fam = [list(s) for s in itertools.product(short_ops2, repeat=n)]
+        nfam2 += len(fam)
+        seqs += fam
+    nrand = 120 if tier == 'quick' else 1500
+    for _ in range(nrand):
         seqs.append([rng.choice(ops) for _ in range(rng.randint(4, 14))])
     for si, seq in enumerate(seqs):
         for dk in ('plain', 'deprecated'):
             for start_main in (True, False):
-                if si < len(seqs) - (120 if tier == 'quick' else 1500) and dk == 'deprecated' and not start_main:
+                if si < len(seqs) - nrand and dk == 'deprecated' and not start_main:
+                    continue
+                if len(seqs) - nrand - nfam2 <= si < len(seqs) - nrand and (dk == 'deprecated' or start_main):
                     continue
                 sb = Sandbox()
                 try:
@@ -363,7 +375,7 @@ def c12(tier='quick', seed=0):
     quiet()
     rng = random.Random(seed)
     R = Result('loading is idempotent and does not touch registered objects', 'interleavings (exhaustive to length 4, random to '
-               '10) of {load, forced load, enforce, edit file} across one to three enforcers with their own option values and '
+               '10) of {load, forced load, enforce, edit file} across one to three enforcers (one of them without a main policy file and with an empty policy.d) with their own option values and '
                'files, sharing one list of RuleDefault/DeprecatedRule objects whose defaults include top-level and/or/not '
                'expressions; effective policy (printed form and node count) after k loads against one load; shared objects '
                'against a snapshot')
@@ -382,6 +394,7 @@ def c12(tier='quick', seed=0):
     for n in range(1, L + 1):
         for s in itertools.product(acts, repeat=n):
             seqs.append([(a, 0) for a in s])
+            seqs.append([(a, 1) for a in s])        # enforcer 1 has no main policy file and starts with an empty policy.d
     for _ in range(60 if tier == 'quick' else 600):
         seqs.append([(rng.choice(acts), rng.randrange(3)) for _ in range(rng.randint(3, 10))])
     for si, seq in enumerate(seqs):
@@ -391,7 +404,8 @@ def c12(tier='quick', seed=0):
                 sb = Sandbox()
                 sbs.append(sb)
                 sb.mkdir('d1')
-                sb.write('policy.yaml', {'p:d': 'role:file%d' % i} if i != 1 else {})
+                if i != 1:
+                    sb.write('policy.yaml', {'p:d': 'role:file%d' % i})
                 conf = sb.conf(policy_file='policy.yaml', policy_dirs=['d1'], enforce_new_defaults=(i == 2))
                 e = policy.Enforcer(conf)
                 for d in shared:
@@ -451,17 +465,20 @@ def c11(tier='quick', seed=0):
     quiet()
     R = Result('deprecated-policy override table', 'renamed or same-name deprecation x same/different check strings x '
                'enforce_new_defaults x new-name override absent/present x old-name override absent/arbitrary/alias x override in '
-               'the main file or in a policy directory x two new policies sharing one predecessor; decisions on all subsets of '
+               'the main file, in a policy directory, or in a policy directory with no main file x two new policies sharing one '
+               'predecessor x loaded fresh or after an earlier generation of the files that overrode both names; decisions on all subsets of '
                '{new, old, ovr, ovn}; complete for this space')
     R.d['exhaustive'] = True
     roles_all = ['new', 'old', 'ovr', 'ovn', 'new2']
     subsets = [list(c) for k in range(len(roles_all) + 1) for c in itertools.combinations(roles_all, k)]
-    for renamed, same_str, flag, new_ovr, old_ovr, where, shared in itertools.product(
-            [True, False], [True, False], [True, False], [False, True], ['absent', 'arbitrary', 'alias'], ['main', 'dir'],
-            [False, True]):
+    for renamed, same_str, flag, new_ovr, old_ovr, where, shared, hist in itertools.product(
+            [True, False], [True, False], [True, False], [False, True], ['absent', 'arbitrary', 'alias'],
+            ['main', 'dir', 'dironly'], [False, True], ['fresh', 'overrides-removed']):
         if not renamed and old_ovr != 'absent':
             continue        # same name: an old-name override is the new-name override
         if shared and not renamed:
+            continue
+        if hist != 'fresh' and (shared or same_str):
             continue
         sb = Sandbox()
         try:
@@ -482,15 +499,25 @@ def c11(tier='quick', seed=0):
             elif old_ovr == 'alias':
                 content[old_name] = 'rule:svc:new'
             sb.mkdir('d1')
-            if where == 'main':
-                sb.write('policy.yaml', content)
-            else:
-                sb.write('policy.yaml', {})
-                sb.write('d1/o.yaml', content)
             conf = sb.conf(policy_file='policy.yaml', policy_dirs=['d1'], enforce_new_defaults=flag)
             e = policy.Enforcer(conf)
             for d in defaults:
                 e.register_default(d)
+
+            def put(c):
+                if where == 'main':
+                    sb.write('policy.yaml', c)
+                else:
+                    if where == 'dir':
+                        sb.write('policy.yaml', {})
+                    sb.write('d1/o.yaml', c)
+            if hist != 'fresh':
+                # an earlier generation of the files overrode both names; the operator has since edited them: only
+                # the files as they are now may influence a decision
+                put({'svc:new': 'role:prevnew', old_name: 'role:prevold'})
+                e.load_rules()
+                outcome(e.enforce, 'svc:new', {}, {'roles': []})
+            put(content)
             e.load_rules()
 
             def want_for(name, new_default, roles):
@@ -515,10 +542,10 @@ def c11(tier='quick', seed=0):
                     got = outcome(e.enforce, name, {}, {'roles': roles})
                     bad = None
                     if got[0] != 'ret' or bool(got[1]) != w:
-                        bad = ('renamed=%s same_check_str=%s enforce_new_defaults=%s new_override=%s old_override=%s in %s shared=%s: '
-                               '%s with roles %r gave %r, table says %r' % (renamed, same_str, flag, new_ovr, old_ovr, where,
-                                                                           shared, name, roles, got[1:], w))
-                    R.case((renamed, same_str, flag, new_ovr, old_ovr, where, shared, name, tuple(roles)), bad)
+                        bad = ('renamed=%s same_check_str=%s enforce_new_defaults=%s new_override=%s old_override=%s in %s shared=%s '
+                               'history=%s: %s with roles %r gave %r, table says %r' % (
+                                   renamed, same_str, flag, new_ovr, old_ovr, where, shared, hist, name, roles, got[1:], w))
+                    R.case((renamed, same_str, flag, new_ovr, old_ovr, where, shared, hist, name, tuple(roles)), bad)
                     if R.full:
                         return R.d
         finally:
@@ -536,7 +563,9 @@ def c20(tier='quick', seed=0):
                'boundary inside oslo_policy (sys.settrace) and a complete enforce() is run on the same enforcer at that point '
                '(what a second thread would do under the interpreter lock); its decision must equal the decision under the '
                'old or the new policy; one context switch per run')
-    scenarios = ['main_only', 'main_with_dir', 'dir_edit', 'defaults_permissive_default', 'deprecated_defaults']
+    distinct = {}
+    scenarios = ['main_only', 'main_with_dir', 'dir_edit', 'defaults_permissive_default', 'deprecated_defaults',
+                 'deprecated_override']
     if tier == 'quick':
         pass
     for sc in scenarios:
@@ -562,6 +591,14 @@ def c20(tier='quick', seed=0):
                     defaults = [policy.RuleDefault('reg_api', 'role:reg', deprecated_rule=dep)]
                 old_main = {'default': '@'}
                 new_main = {'default': '@', 'x': 'role:x'}
+            if sc == 'deprecated_override':
+                # the operator overrides the deprecated name in the main file and edits an unrelated rule
+                with warnings.catch_warnings():
+                    warnings.simplefilter('ignore')
+                    dep = policy.DeprecatedRule('old_api', 'role:oldrole', deprecated_reason='r', deprecated_since='s')
+                    defaults = [policy.RuleDefault('reg_api', 'role:reg', deprecated_rule=dep)]
+                old_main = {'old_api': 'role:owner', 'x': 'role:x'}
+                new_main = {'old_api': 'role:owner', 'x': 'role:x or role:root'}
             sb.write('policy.yaml', old_main)
             conf = sb.conf(policy_file='policy.yaml', policy_dirs=dirs, enforce_new_defaults=False)
             queries = [(n, r) for n in ('admin_api', 'owner_api', 'reg_api', 'x', 'nothing')
@@ -618,6 +655,7 @@ def c20(tier='quick', seed=0):
                 seen = [0]
                 mixed = []
                 where = [None]
+                where_fn = [None]
 
                 def tracer(frame, event, arg):
                     if not frame.f_code.co_filename.startswith(pkg):
@@ -627,6 +665,12 @@ def c20(tier='quick', seed=0):
                         if seen[0] == stop_at:
                             sys.settrace(None)
                             where[0] = '%s:%d' % (os.path.basename(frame.f_code.co_filename), frame.f_lineno)
+                            # the step of the reload that was interrupted: load_rules itself or the function it called
+                            fr, phase = frame, frame.f_code.co_name
+                            while fr is not None and fr.f_code.co_name != 'load_rules':
+                                phase = fr.f_code.co_name
+                                fr = fr.f_back
+                            where_fn[0] = phase if fr is not None else frame.f_code.co_name
                             try:
                                 for qi, (n, r) in enumerate(queries):
                                     try:
@@ -644,16 +688,19 @@ def c20(tier='quick', seed=0):
                     e.load_rules()
                 finally:
                     sys.settrace(None)
-                bad = None
-                if mixed:
-                    n, r, d, o, nw = mixed[0]
-                    bad = ('scenario %s: reload stopped at %s (line event %d of %d): enforce(%r, roles=%r) decided %r while the old '
-                           'policy decides %r and the new policy %r' % (sc, where[0], stop_at, total, n, r, d, o, nw))
-                R.case('%s@%s' % (sc, where[0]), bad, sample={'scenario': sc, 'preempted_at': where[0]})
-                if bad:
-                    R.d['violations'][-1]['key'] = 'scenario=%s %s' % (sc, (where[0] or '').split(':')[0])
-                    R.d['violations'][-1]['scenario'] = sc
-                    break
+                R.case('%s@%s' % (sc, where[0]), None, sample={'scenario': sc, 'preempted_at': where[0]})
+                # one finding per distinct (scenario, query, mixed decision): a wrong decision that the listed windows do
+                # not produce is a different violation (the interrupted step is reported, but a refactoring that moves a
+                # window between helper functions is not a new defect)
+                for n, r, d, o, nw in mixed:
+                    key = 'scenario=%s query=%s/%s decided=%s' % (sc, n, '+'.join(r) or '-', d)
+                    if key in distinct:
+                        continue
+                    distinct[key] = ('scenario %s: reload stopped at %s in %s (line event %d of %d): enforce(%r, roles=%r) decided %r '
+                                     'while the old policy decides %r and the new policy %r' % (
+                                         sc, where[0], where_fn[0], stop_at, total, n, r, d, o, nw))
         finally:
             sb.close()
+    for key in sorted(distinct):
+        R.d['violations'].append({'key': key, 'detail': distinct[key]})
     return R.d
